@@ -207,7 +207,20 @@ fn run_routing(c: &mut Collector) {
         // build the argument once per form
         let (meta, nested): (Option<Meta>, Option<NestedMeta>) = if form.nested {
             let ts: TokenStream = syn::parse_str(&form.text).expect("form lexes");
-            let mut items = NestedMeta::parse_meta_list(ts).expect("form parses as list");
+            // darling's own parser: a valid form it rejects is an observation, not a harness fault
+            let mut items = match catch(|| NestedMeta::parse_meta_list(ts)) {
+                Caught::Ok(Ok(items)) if !items.is_empty() => items,
+                other => {
+                    c.eval();
+                    let what = match other {
+                        Caught::Ok(Ok(_)) => "no items".to_string(),
+                        Caught::Ok(Err(e)) => e.to_string(),
+                        Caught::Panic { msg, .. } => format!("panic: {msg}"),
+                    };
+                    c.violation("C15:routing:valid-item-rejected", format!("parse_meta_list rejects the valid nested item `{}`: {what}", form.text), json!({"input": form.text}));
+                    continue;
+                }
+            };
             (None, Some(items.remove(0)))
         } else {
             let mut m: Meta = syn::parse_str(&form.text).expect("form parses");
